@@ -405,7 +405,11 @@ def run_engine_plan(bt, plan, judge, prepare=None):
     sim = EngineSim(bt, plan, judge)
     try:
         try:
-            sim.setup()
+            try:
+                sim.setup()
+            except Exception as e:  # noqa
+                sim.violation("C10.unexpected_exception", "Backtest construction: %s: %s" % (type(e).__name__, str(e)[:200]), {"exc": type(e).__name__, "stem": str(e)[:40]})
+                raise Stop("construction_failed")
             if prepare is not None:
                 prepare(sim)
             sim.run_engine()
